@@ -275,3 +275,31 @@ def _raw(fut):
         return fut.result()
     except BaseException:
         return None
+
+
+
+def fresh_alias_registry(client_dir):
+    """A new process' view of the alias registry (service_name_handler) stored in `client_dir`: the module is re-executed
+    with HOME pointing at a directory whose .sse/client is a link to client_dir.  Nothing of the module's internals is
+    touched (the cache, however it is kept, starts empty as in a new process)."""
+    import importlib
+    import os
+    import pathlib
+    import frontend.client.services.service_name_handler as snh
+    client_dir = pathlib.Path(client_dir)
+    client_dir.mkdir(parents=True, exist_ok=True)
+    home = client_dir.parent / ("_home_" + client_dir.name)
+    (home / ".sse").mkdir(parents=True, exist_ok=True)
+    link = home / ".sse" / "client"
+    if not link.is_symlink():
+        link.symlink_to(client_dir.resolve(), target_is_directory=True)
+    old = os.environ.get("HOME")
+    os.environ["HOME"] = str(home)
+    try:
+        importlib.reload(snh)
+    finally:
+        if old is None:
+            os.environ.pop("HOME", None)
+        else:
+            os.environ["HOME"] = old
+    return snh
